@@ -171,6 +171,20 @@ class DeblendMachine(Machine):
             return {'op': 'serial'}
         if st.nsched >= st.cfg['nsched']:
             return None
+        if rng.chance(0.12) and st.entry == 'deblend' and not st.cfg.get(
+                'carpet'):
+            # the same process goes on with another configuration: anything
+            # the parallel path keeps between calls (a cached pool, worker
+            # globals) must not leak into it
+            knob = rng.pick(['connectivity', 'contrast', 'mode', 'nlevels',
+                             'relabel', 'npixels'])
+            val = {'connectivity': rng.pick([4, 8]),
+                   'contrast': rng.pick([0.0, 1e-3, 0.05, 0.5]),
+                   'mode': rng.pick(['exponential', 'linear', 'sinh']),
+                   'nlevels': rng.pick([1, 4, 16, 32]),
+                   'relabel': rng.chance(0.5),
+                   'npixels': rng.pick([1, 2, 3, 5, 8])}[knob]
+            return {'op': 'reconfig', 'knob': knob, 'value': val}
         return self._gen_schedule(rng, st)
 
     def _gen_schedule(self, rng, st):
@@ -283,6 +297,17 @@ class DeblendMachine(Machine):
 
     def step(self, st, op):
         if op['op'] == 'serial':
+            self._step_serial(st)
+        elif op['op'] == 'reconfig':
+            if st.entry != 'deblend':
+                raise Inapplicable('reconfig')
+            st.cfg = dict(st.cfg)
+            st.cfg[op['knob']] = op['value']
+            # a connectivity that differs from the one of the segmentation
+            # may legitimately make the call raise: serial decides
+            st.cfg['fault_tier'] = st.cfg['fault_tier'] or (
+                op['knob'] == 'connectivity')
+            st.stats.probe('reconfigured_between_calls')
             self._step_serial(st)
         elif op['op'] == 'schedule':
             if not st.serial_done:
